@@ -20,9 +20,10 @@ package svg
 //@ func parsePoints
 //@   props C07 C18 C01
 //@   nopanic
-//@   modifies anything
+//@   modifies points[..]
 //@   ensures result1 == nil ==> len(result0) >= len(points)
-//@   loop 1 invariant 0 <= pos && len(data) == len(dataPoints) && len(points) >= old(len(points))
+//@   ensures fresh(result0) || samebase(result0, points)
+//@   loop 1 invariant 0 <= pos && len(data) == len(dataPoints) && len(points) >= old(len(points)) && (fresh(points) || samebase(points, old(points))) && fresh(data)
 //@   loop 1 decreases len(data) - pos
 
 //@ func parseOpacity
@@ -44,7 +45,7 @@ package svg
 //@ func parseViewbox
 //@   props C07 C18
 //@   nopanic
-//@   modifies anything
+//@   modifies nothing
 
 // ---------------------------------------------------------------------------
 // path data (elements_path.go)
@@ -77,6 +78,7 @@ func vBez3(p0, p1, p2, p3, t Fl) Fl {
 //@   requires c != nil
 //@   modifies *c
 //@   ensures len(c.points) == 0 && len(c.path) == 0 && !c.inPath && c.currentX == 0 && c.currentY == 0
+//@   ensures samebase(c.path, old(c.path)) && samebase(c.points, old(c.points))
 
 //@ func (*pathParser).close
 //@   props C18
@@ -145,7 +147,8 @@ func vBez3(p0, p1, p2, p3, t Fl) Fl {
 //@   props C18 C07
 //@   nopanic
 //@   requires c != nil
-//@   modifies anything
+//@   modifies c.points, c.points[..]
+//@   ensures fresh(c.points) || samebase(c.points, old(c.points))
 
 //@ func (*pathParser).reflectControlQuad
 //@   props C18
@@ -194,3 +197,61 @@ func vBez3(p0, p1, p2, p3, t Fl) Fl {
 //@   requires c != nil && len(points) >= 7
 //@   modifies c.path, c.path[..], c.currentX, c.currentY, points[..]
 //@   ensures[ends-at-given-point] c.currentX == old(points[5]) && c.currentY == old(points[6])
+//@   ensures fresh(c.path) || samebase(c.path, old(c.path))
+
+//@ func errParamMismatch
+//@   props C07 C18
+//@   nopanic
+//@   ensures result != nil
+
+// The path interpreter (SVG 1.1 §8.3): one command letter followed by its arguments.
+// Memory safety of every c.points[...] access, termination of every repetition loop, and
+// the effect of each command on the current point / sub-path start.
+//@ func (*pathParser).addSeg
+//@   props C18 C07 C01
+//@   nopanic
+//@   requires c != nil && len(segString) >= 1
+//@   modifies *c, c.points[..], c.path[..]
+//@   let op = segString[0]
+//@   ensures[closepath] result == nil && (op == 'z' || op == 'Z') && old(c.inPath) ==> c.currentX == old(c.pathStartX) && c.currentY == old(c.pathStartY) && !c.inPath
+//@   ensures[moveto-start] result == nil && (op == 'M' || op == 'm') ==> c.inPath && c.pathStartX == c.points[0] && c.pathStartY == c.points[1]
+//@   ensures[current-is-last-pair] result == nil && in(op, 'M', 'm', 'L', 'l', 'Q', 'q', 'C', 'c') ==> len(c.points) >= 2 && c.currentX == c.points[len(c.points)-2] && c.currentY == c.points[len(c.points)-1]
+//@   ensures[vertical] result == nil && (op == 'V' || op == 'v') ==> len(c.points) >= 1 && c.currentY == c.points[len(c.points)-1] && c.currentX == old(c.currentX)
+//@   ensures[horizontal] result == nil && (op == 'H' || op == 'h') ==> len(c.points) >= 1 && c.currentX == c.points[len(c.points)-1] && c.currentY == old(c.currentY)
+//@   ensures[lastkey] result == nil ==> c.lastKey == op
+//@   ensures[arrays] (fresh(c.path) || samebase(c.path, old(c.path))) && (fresh(c.points) || samebase(c.points, old(c.points)))
+//@   loop 1 invariant L == len(c.points) && L >= 2 && L % 2 == 0 && i >= 2 && i % 2 == 0 && c.inPath && c.pathStartX == c.points[0] && c.pathStartY == c.points[1]
+//@   loop 1 invariant (fresh(c.path) || samebase(c.path, old(c.path))) && (fresh(c.points) || samebase(c.points, old(c.points)))
+//@   loop 1 decreases L - i
+//@   loop 2 invariant L == len(c.points) && L >= 2 && L % 2 == 0 && i >= 0 && i % 2 == 0
+//@   loop 2 invariant (fresh(c.path) || samebase(c.path, old(c.path))) && (fresh(c.points) || samebase(c.points, old(c.points)))
+//@   loop 2 decreases L - i
+//@   loop 3 invariant L == len(c.points) && L >= 1 && rangeindex < L && c.currentX == old(c.currentX)
+//@   loop 3 invariant (fresh(c.path) || samebase(c.path, old(c.path))) && (fresh(c.points) || samebase(c.points, old(c.points)))
+//@   loop 3 decreases L - rangeindex
+//@   loop 4 invariant L == len(c.points) && L >= 1 && rangeindex < L && c.currentY == old(c.currentY)
+//@   loop 4 invariant (fresh(c.path) || samebase(c.path, old(c.path))) && (fresh(c.points) || samebase(c.points, old(c.points)))
+//@   loop 4 decreases L - rangeindex
+//@   loop 5 invariant L == len(c.points) && L >= 4 && L % 4 == 0 && i >= 0 && i % 4 == 0
+//@   loop 5 invariant (fresh(c.path) || samebase(c.path, old(c.path))) && (fresh(c.points) || samebase(c.points, old(c.points)))
+//@   loop 5 decreases L - i
+//@   loop 6 invariant L == len(c.points) && L >= 2 && L % 2 == 0 && i >= 0 && i % 2 == 0
+//@   loop 6 invariant (fresh(c.path) || samebase(c.path, old(c.path))) && (fresh(c.points) || samebase(c.points, old(c.points)))
+//@   loop 6 decreases L - i
+//@   loop 7 invariant L == len(c.points) && L >= 6 && L % 6 == 0 && i >= 0 && i % 6 == 0
+//@   loop 7 invariant (fresh(c.path) || samebase(c.path, old(c.path))) && (fresh(c.points) || samebase(c.points, old(c.points)))
+//@   loop 7 decreases L - i
+//@   loop 8 invariant L == len(c.points) && L >= 4 && L % 4 == 0 && i >= 0 && i % 4 == 0
+//@   loop 8 invariant (fresh(c.path) || samebase(c.path, old(c.path))) && (fresh(c.points) || samebase(c.points, old(c.points)))
+//@   loop 8 decreases L - i
+//@   loop 9 invariant L == len(c.points) && L >= 7 && L % 7 == 0 && i >= 0 && i % 7 == 0
+//@   loop 9 invariant (fresh(c.path) || samebase(c.path, old(c.path))) && (fresh(c.points) || samebase(c.points, old(c.points)))
+//@   loop 9 decreases L - i
+
+//@ func (*pathParser).parsePath
+//@   props C18 C07 C01
+//@   nopanic
+//@   requires c != nil
+//@   modifies *c, c.points[..], c.path[..]
+//@   loop 1 invariant -1 <= lastIndex && lastIndex <= rangeindex && rangeindex < len(data) && fresh(data) && (fresh(c.path) || samebase(c.path, old(c.path))) && (fresh(c.points) || samebase(c.points, old(c.points)))
+//@   loop 1 decreases len(data) - rangeindex
